@@ -15,10 +15,12 @@ import Proofs.C13
      bnot bsl bsr band bor bxor · shift-count validators · CastFn / FuncN wrappers ·
      to_toml / to_xml / tojson / to_yaml indent · OptionsFromValue clamps + dump.go arithmetic ·
      Binary index / slice ranges · _intdiv / to_radix / from_radix.
+  FALSE of the current code, stated as `_partial` with a `decide` witness:
+     `_stdio_read(fd; l)` with a negative or huge length (known finding stdio-read-length).
   Found by this check and since fixed in /repo (`decide` witnesses about the old code kept):
      `_tobits({unit:0})` divided by zero; `tojson({indent:-(2^62+1)})` wrapped around to a huge
      depth; display options with a huge line_bytes never finished / exhausted memory.
-  No modelled function is left with a `_partial` theorem.
+  (see known_findings.json)
   What is NOT proved (validated by enumeration only, see lib/props/C13.json): the statement for
   every other registered function, and for the third-party encoders behind to_toml/to_xml/to_yaml.
 -/
@@ -340,6 +342,37 @@ theorem dump_unclamped_panics :
     (dump (rawOpts (.obj [("addrbase", .int 99)])) 0).isPanic = true ∧
     (dump (rawOpts .null) 0).isPanic = true := by
   decide
+
+/-! ## _stdio_read -/
+
+/-- Known finding stdio-read-length (found by reading while checking which strings the pool lacks,
+    replayed on the real binary): `_stdio_read("stdin"; -1)` — `make([]byte, -1)` panics;
+    `_stdio_read("stdin"; 100000000000)` cannot be allocated -/
+theorem stdio_read_negative_panics :
+    stdioRead true (-1) = .panic "runtime error: makeslice: len out of range" ∧
+    stdioRead true 9223372036854775807 = .panic "runtime error: makeslice: len out of range" ∧
+    (stdioRead true 100000000000).isResource = true := by
+  decide
+
+theorem stdio_read_total_false : ¬ ∀ fd l, (stdioRead fd l).noFault = true := by
+  intro h
+  have := h true (-1)
+  revert this
+  decide
+
+/-- PARTIAL.  Full statement: `∀ fd l, (stdioRead fd l).noFault` — FALSE (`stdio_read_total_false`).
+    Proved: every length in 0..2^33, every fd name -/
+theorem stdio_read_total_partial (fd : Bool) (l : Int) (h0 : 0 ≤ l) (h1 : l ≤ 8589934592) :
+    (stdioRead fd l).noFault = true := by
+  unfold stdioRead makeBytes resourceBits
+  split
+  · rfl
+  · have e1 : ¬ ((decide (l < 0) || decide (l > 281474976710656)) = true) := by simp; omega
+    have e2 : ¬ l.toNat > 2 ^ 36 / 8 := by
+      have : (2 : Nat) ^ 36 / 8 = 8589934592 := by decide
+      omega
+    simp only [e1, e2, if_false]
+    rfl
 
 /-! ## _tobits -/
 
